@@ -827,8 +827,39 @@ def container_method(eng, st, recv, name, pos, kw):
                      patterns=[unwrap(seq.get(st, j), rec["kkind"])])
             ax2 = FA([k], z3.Implies(z3.Select(newdom, k) != z3.Select(rec["dom"], k), inlist), patterns=[z3.Select(newdom, k)])
             return [("ok", commit(st.assume(ax1, ax2), newdom), NONE)]
+        if name in ("__sub__", "difference") and len(pos) == 1 and not kw and isinstance(pos[0], VObj) and pos[0].kind == "set":
+            # a - b for two sets: a NEW set with the pointwise difference (neither operand changes)
+            orec = st.objs[pos[0].oid]
+            if rec.get("lazy"):
+                st2, o = alloc_obj(st, "set", {"lazy": True})
+                return [("ok", st2, VObj(o.oid, "set", "set"))]
+            if orec.get("lazy"):
+                st2, out = alloc_set(st, rec["kkind"], dom=rec["dom"])
+                return [("ok", st2, out)]
+            if orec["dom"].sort() != rec["dom"].sort():
+                raise Unsupported("difference of sets of different element kinds")
+            newdom = fresh("setdiff", rec["dom"].sort())
+            k = z3.Const(fresh_name("dk"), rec["dom"].sort().domain())
+            ax = FA([k], z3.Select(newdom, k) == z3.And(z3.Select(rec["dom"], k), z3.Not(z3.Select(orec["dom"], k))),
+                    patterns=[z3.Select(newdom, k), z3.Select(rec["dom"], k)])
+            st2, out = alloc_set(st.assume(ax), rec["kkind"], dom=newdom)
+            return [("ok", st2, out)]
         if name == "copy":
             st2, out = alloc_set(st, rec["kkind"], dom=rec["dom"])
+            return [("ok", st2, out)]
+        if name == "difference" and len(pos) == 1 and isinstance(pos[0], VObj) and pos[0].kind == "set" and not rec.get("lazy"):
+            # s.difference(t) with a SET argument: a NEW set, pointwise `in s and not in t` (neither operand changes)
+            orec = st.objs[pos[0].oid]
+            if orec.get("lazy"):
+                st2, out = alloc_set(st, rec["kkind"], dom=rec["dom"])
+                return [("ok", st2, out)]
+            if orec["dom"].sort() != rec["dom"].sort():
+                raise Unsupported("set.difference of sets of different element kinds")
+            newdom = fresh("setdiff", rec["dom"].sort())
+            k = z3.Const(fresh_name("dk"), rec["dom"].sort().domain())
+            ax = FA([k], z3.Select(newdom, k) == z3.And(z3.Select(rec["dom"], k), z3.Not(z3.Select(orec["dom"], k))),
+                    patterns=[z3.Select(newdom, k)])
+            st2, out = alloc_set(st.assume(ax), rec["kkind"], dom=newdom)
             return [("ok", st2, out)]
         if name == "__contains__":
             return contains(eng, st, recv, pos[0])
@@ -1195,10 +1226,91 @@ def bi_int(eng, st, pos, kw):
     raise Unsupported("int() of non-int")
 
 
+_SIGMA = {}
+
+
+def sigma(ksort):
+    """SIGMA_K(dom, F): the sum of F[k] over the keys k of the FINITE key set dom.  Uninterpreted: nothing but "the same key set and
+    the same summand function give the same sum" is ever used.  That it does not depend on the order in which a dict / set happens
+    to be enumerated is commutativity and associativity of + on the reals (encoding assumption A2: floats are reals, no rounding)."""
+    key = str(ksort)
+    if key not in _SIGMA:
+        _SIGMA[key] = z3.Function(f"SIGMA_{key}", z3.ArraySort(ksort, z3.BoolSort()), z3.ArraySort(ksort, z3.RealSort()), z3.RealSort())
+    return _SIGMA[key]
+
+
+def _mentions(term, const):
+    seen, todo, cid = set(), [term], const.get_id()
+    while todo:
+        t = todo.pop()
+        if t.get_id() in seen:
+            continue
+        seen.add(t.get_id())
+        if t.get_id() == cid:
+            return True
+        todo.extend(t.children())
+    return False
+
+
+def _enumeration_of(st, g):
+    """(key term at the generator's index, key set) when the generator runs over the ghost enumeration `order` of a dict / set
+    (`for k in d`, `for k, v in d.items()`, ...): the key of element i is order[i]; else (None, None)"""
+    src = getattr(g.seq, "src", None)
+    if isinstance(src, tuple) and len(src) >= 4 and src[0] == "order" and g.seq.tag == "setiter":
+        return z3.Select(src[1], g.idx), src[3]
+    if g.seq.tag != "dictview":
+        return None, None
+    probe = g.seq.get(st, g.idx)
+    first = probe.items[0] if isinstance(probe, VTuple) and probe.items else probe
+    t = getattr(first, "t", None)
+    cands = [t] if t is not None else []
+    if t is not None and z3.is_app(t) and t.decl().kind() == z3.Z3_OP_SELECT and t.num_args() == 2:
+        cands.append(t.arg(1))          # .values(): val[order[i]]
+    for key, ent in st.ghost.items():
+        if isinstance(key, tuple) and len(key) == 3 and key[0] == "order" and key[1] in st.objs:
+            order = ent[0]
+            kt = z3.Select(order, g.idx)
+            rec = st.objs[key[1]]
+            if any(c.eq(kt) for c in cands) and rec.get("dom") is not None and rec["dom"].get_id() == key[2]:
+                return kt, rec["dom"]
+    return None, None
+
+
+def bi_sum(eng, st, pos, kw):
+    """sum(<generator expression over a dict / set>) of FINITE numbers whose summand is a function of the KEY alone:
+    the value is SIGMA(dom, F) with F a fresh function characterised pointwise, F[k] = summand at key k (for every k; the summand
+    terms are total).  The pair (dom, F) is left in the ghost state under ("sigma", <name of F>) so that a specification can say
+    what is summed.  Anything else (lists, filtered generators, infinite summands, a start value) is unsupported."""
+    from . import comprehension as C
+    if len(pos) != 1 or kw or not isinstance(pos[0], C.VGen):
+        raise Unsupported("sum() of something else than one generator expression")
+    g = pos[0]
+    if g.cond is not None:
+        raise Unsupported("sum() of a filtered generator")
+    if not isinstance(g.elt, (VReal, VInt, VBool)):
+        raise Unsupported("sum() of non-numeric elements")
+    r = eng.to_real(g.elt)
+    kk = z3.simplify(r.k)
+    if not (z3.is_int_value(kk) and kk.as_long() == 0):
+        raise Unsupported("sum() of possibly infinite elements")
+    key_term, dom = _enumeration_of(st, g)
+    if key_term is None:
+        raise Unsupported("sum() over something else than the enumeration of a dict / set")
+    ksort = key_term.sort()
+    k = z3.Const(fresh_name("sk"), ksort)
+    body = z3.substitute(r.v, (key_term, k))
+    if _mentions(body, g.idx):
+        raise Unsupported("sum(): the summand depends on the position in the enumeration, not only on the key")
+    F = fresh("summand", z3.ArraySort(ksort, z3.RealSort()))
+    st = st.assume(FA([k], z3.Select(F, k) == body, patterns=[z3.Select(F, k)]))
+    st = st.setghost(("sigma", F.decl().name()), (dom, F))
+    return [("ok", st, VReal(0, sigma(ksort)(dom, F)))]
+
+
 TYPE_NAMES = {"list", "dict", "set", "tuple", "slice", "str", "int", "bool", "float", "frozenset", "type", "object"}
 
 BUILTINS = {
-    "int": bi_int, "chain": bi_chain,
+    "int": bi_int, "chain": bi_chain, "sum": bi_sum,
     "len": bi_len, "isinstance": bi_isinstance, "hasattr": bi_hasattr, "getattr": bi_getattr, "setattr": bi_setattr,
     "enumerate": bi_enumerate, "islice": bi_islice, "range": bi_range, "str": bi_str, "repr": bi_opaque,
     "format": bi_opaque, "id": bi_opaque, "isinf": bi_isinf, "isnan": bi_isnan, "abs": bi_abs, "min": _minmax(True), "max": _minmax(False),
